@@ -52,7 +52,25 @@ import sys, os, atexit
 sys.path.insert(0, {verif!r})
 import {module} as _h
 _N = [0]
-atexit.register(lambda: sys.stderr.write("PATHS %d\\n" % _N[0]))
+_Q = [0]
+_B = [0]
+try:
+    import crosshair.statespace as _ss
+    _osat = _ss.solver_is_sat
+
+    def _csat(solver, *e):
+        _Q[0] += 1
+        return _osat(solver, *e)
+    _ss.solver_is_sat = _csat
+    _ocp = _ss.StateSpace.choose_possible
+
+    def _ccp(self, *a, **k):
+        _B[0] += 1
+        return _ocp(self, *a, **k)
+    _ss.StateSpace.choose_possible = _ccp
+except Exception:
+    pass
+atexit.register(lambda: sys.stderr.write("PATHS %d QUERIES %d BRANCHES %d\\n" % (_N[0], _Q[0], _B[0])))
 
 
 def w({sig}) -> bool:
@@ -133,10 +151,12 @@ def _run_one(job):
         err = (e.stderr or b"").decode() if isinstance(e.stderr, bytes) else (e.stderr or "")
         rc = -9
     res = {"file": job["file"], "rc": rc, "wall": round(time.time() - t0, 2), "verdict": "inconclusive",
-           "msg": "", "args": None, "paths": 0, "key": job["key"]}
-    m = re.search(r"PATHS (\d+)", err)
+           "msg": "", "args": None, "paths": 0, "queries": 0, "branches": 0, "key": job["key"]}
+    m = re.search(r"PATHS (\d+) QUERIES (\d+) BRANCHES (\d+)", err)
     if m:
         res["paths"] = int(m.group(1))
+        res["queries"] = int(m.group(2))
+        res["branches"] = int(m.group(3))
     lines = [l for l in out.splitlines() if _MSG.match(l)]
     if not lines:
         res["msg"] = "no verdict line; rc=%s stderr=%s" % (rc, err[-800:])
@@ -186,7 +206,8 @@ def load_known(prop):
     path = os.path.join(VERIF, "known_findings.json")
     if not os.path.exists(path):
         return []
-    data = json.load(open(path))
+    with open(path) as fh:
+        data = json.load(fh)
     return [e for e in data.get("findings", []) if e.get("property") == prop and e.get("status") == "known"]
 
 
@@ -254,11 +275,26 @@ def run_property(prop, module, conds, tier, seed=0, extra_evidence=None, extra_r
             sys.stderr.write("JOB %s %s paths=%d wall=%.0fs %s\n" % (r["key"], r["verdict"], r["paths"], r["wall"], r["msg"][:150]))
     bycond = {c.name: c for c in conds}
     jobby = {j["key"]: j for j in jobs}
+    # twin witnesses are concrete inputs reaching the asserting branch: replay each on the real
+    # (uncut, real-clock) implementation; the property must hold there too
+    twin_jobs = []
+    for r in results:
+        if r["key"][2] and r["verdict"] == "refuted" and r["args"] is not None:
+            full = dict(jobby[r["key"]]["fixed"])
+            full.update(r["args"])
+            twin_jobs.append((r, full))
+    with cf.ThreadPoolExecutor(max_workers=NCPU) as ex:
+        for (r, full), rp in zip(twin_jobs, ex.map(lambda t: replay(module, t[0]["key"][0], t[1]), twin_jobs)):
+            r["twin_replay"] = rp
+            r["twin_args"] = full
     known = load_known(prop)
     code = 0
     lines = []
     samples = []
     n_confirmed = n_twin = n_oblig = 0
+    traces_validated = 0
+    twin_samples = []
+    queries = branches = 0
     paths = 0
     violations = 0
     known_hit = []
@@ -269,9 +305,20 @@ def run_property(prop, module, conds, tier, seed=0, extra_evidence=None, extra_r
         c = bycond[name]
         fixed = jobby[r["key"]]["fixed"]
         paths += r["paths"]
+        queries += r.get("queries", 0)
+        branches += r.get("branches", 0)
         if twin:
             if r["verdict"] in ("refuted",):
                 n_twin += 1
+                rp = r.get("twin_replay")
+                if rp is not None:
+                    if rp.get("status") == "holds" and rp.get("reached"):
+                        traces_validated += 1
+                        if len(twin_samples) < 4:
+                            twin_samples.append({"condition": name, "witness": r.get("twin_args"), "real_implementation": rp.get("detail", "")[:200]})
+                    else:
+                        inconclusive.append("%s[%d] reachability witness %r behaves differently on the real implementation (%s: %s)"
+                                            % (name, k, r.get("twin_args"), rp.get("status"), rp.get("detail", "")[:300]))
             else:
                 inconclusive.append("%s[%d] twin not witnessed (%s: %s)" % (name, k, r["verdict"], r["msg"][:200]))
             continue
@@ -306,6 +353,7 @@ def run_property(prop, module, conds, tier, seed=0, extra_evidence=None, extra_r
                 else:
                     os.makedirs(replay_dir, exist_ok=True)
                     rpath = os.path.join(replay_dir, "%s_%d.json" % (name, k))
+                    traces_validated += 1
                     with open(rpath, "w") as fh:
                         json.dump({"property": prop, "module": module, "condition": name, "args": full,
                                    "crosshair": r["msg"], "replay": rp}, fh, indent=1)
@@ -348,13 +396,19 @@ def run_property(prop, module, conds, tier, seed=0, extra_evidence=None, extra_r
     ev = {
         "property_id": prop, "tier": tier, "seed": seed, "level": "model_checking",
         "coverage": {
+            "states": max(paths, 1),
+            "transitions": max(branches, 1),
+            "traces_validated_against_impl": traces_validated,
+            "solver_queries": queries,
             "evaluations": max(paths, 1),
             "distinct_nontrivial": n_confirmed,
-            "rule": "evaluations = execution paths explored by CrossHair (each decided by z3) summed over all "
+            "rule": "states = complete execution paths (terminal symbolic states) explored by CrossHair; transitions = solver-decided branch "
+                    "decisions taken along them (StateSpace.choose_possible calls); solver_queries = z3 check() calls; traces_validated_against_impl = "
+                    "reachability witnesses and counterexamples re-executed concretely on the uncut code with the real time functions; evaluations = execution paths explored by CrossHair (each decided by z3) summed over all "
                     "(condition, partition) runs plus solver queries of hand-built encodings; distinct_nontrivial = "
                     "(condition, partition) obligations with verdict 'Confirmed over all paths' (or solver unsat) "
                     "whose reachability twin produced a witness",
-            "samples": samples[:12],
+            "samples": samples[:12] + twin_samples,
             "obligations": n_oblig, "discharged": n_confirmed, "twins_witnessed": n_twin,
             "known_findings_hit": sorted(seen),
             "inconclusive": inconclusive,
